@@ -496,6 +496,38 @@ def value_under(fa, expr: ast.AST, at: int, facts_src=()) -> str:
         fa.sym.decide = old
 
 
+def expanded_helper(an, f) -> bool:
+    """f is new to the reviewed inventory and every call of it was expanded in place into reviewed functions: what it does is
+    analysed (and reported) there, with the arguments it is really given."""
+    if not an.is_new_function(f) or f.qual not in an.prog.expanded_into:
+        return False
+    att = an.attributed(f)
+    if not att or any(g.qual == f.qual for g in att):
+        return False
+    # no remaining unexpanded call of it anywhere
+    for h in an.prog.functions.values():
+        if h.qual == f.qual:
+            continue
+        for node, tg, e, kind in an.res.calls_in(h):
+            if kind == "call" and any(t.qual == f.qual for t in tg):
+                return False
+    return True
+
+
+def canon_where(fa, expr: ast.AST, site: ast.AST) -> str:
+    """Value id of expr where `site` executes: conditional values that the guards of `site` decide collapse
+    (`b = None if dead else book; if b is not None: b.update(e)` applies update to `book`)."""
+    n = fa.cfg.node_of(site)
+    at = n.id if n is not None else None
+    facts = list(fa.guard_predicates(site))
+    old = fa.sym.decide
+    fa.sym.decide = (lambda c: decide_by_facts(c, facts)) if facts else old
+    try:
+        return fa.sym.canon(expr, at)
+    finally:
+        fa.sym.decide = old
+
+
 def stored_attr_under(fa, attr: str, facts_src=()) -> Optional[str]:
     """Value id of the single, unconditional `self.<attr> = value` store of the function under the given assumptions (None if there is not exactly one such store)."""
     st = [s for s in all_stmts(fa) if isinstance(s, ast.Assign) and len(s.targets) == 1 and isinstance(s.targets[0], ast.Attribute) and s.targets[0].attr == attr
